@@ -69,6 +69,7 @@ class Check(AddCheck):
         n_max = 3 if tier == 'quick' else 4
         yield from gens.merge_cases_story(n_max=n_max, max_src=2 if tier == 'quick' else 3, layouts=['plain', 'between'])
         yield from gens.merge_cases_item(n_max=n_max, max_src=2 if tier == 'quick' else 3, para_layouts=['none', 'between'])
+        yield from gens.merge_cases_padded()
         for ro, doc, meta in kth_bad_cases():
             yield {'ro': ro, 'msg': to_text(doc), 'meta': meta}
         n_hist = 100 if tier == 'quick' else 1000
